@@ -1300,6 +1300,10 @@ class Interp:
             else:
                 try:
                     x = self.eval(v.value, fr)
+                    if getattr(v, "conversion", -1) == 114:  # {x!r}: the text is repr(x), not str(x)
+                        x = self.call(builtins.repr, [x])
+                    elif getattr(v, "conversion", -1) not in (-1, 115) or getattr(v, "format_spec", None) is not None:
+                        raise Unsupported("f-string conversion / format spec")
                 except PyExc:
                     raise
                 parts.append(x)
